@@ -835,7 +835,8 @@ export class ConstRuntype extends BaseRuntype {
       case "number":
         return generateHashFromNumbers([this.value]);
       case "boolean":
-        return generateHashFromString(this.value ? "true" : "false");
+        // not the hash of the string "true" / "false": the boolean constant and the string constant are different types
+        return generateHashFromNumbers([booleanHash, this.value ? 1 : 0]);
     }
   }
   hash256(ctx: Hash256Context): void {
@@ -1201,7 +1202,7 @@ export class AnyOfConstsRuntype extends BaseRuntype {
             acc.push(generateHashFromNumbers([v]));
             break;
           case "boolean":
-            acc.push(generateHashFromString(v ? "true" : "false"));
+            acc.push(generateHashFromNumbers([booleanHash, v ? 1 : 0]));
             break;
         }
       }
